@@ -48,6 +48,61 @@ theorem C02_frag_no_resurrect (r : Reader) (p : WProxy) (hp : r.proxy = some p) 
     · rw [if_neg (by omega)]
     · rw [if_neg (by omega)]
 
+/-- **C02_gap_never_rewinds**: whatever GAP a reader is handed — an old one, a late copy, any start / base / set, for a
+    best-effort or a reliable reader, repaired or as-is glue — `highest_received_change_sn` does not decrease and the
+    delivered list is untouched: a replayed GAP cannot make the reader accept again a DATA it has moved past. -/
+theorem C02_gap_never_rewinds (cfg : Cfg) (r : Reader) (start base : Nat) (set : List Nat) (p : WProxy)
+    (hp : r.proxy = some p) :
+    (r.onGap cfg start base set).cache = r.cache ∧
+    ∃ p', (r.onGap cfg start base set).proxy = some p' ∧ p.highestRecv ≤ p'.highestRecv ∧ p.availMax ≤ p'.availMax := by
+  -- first_available_seq_num is not touched by a GAP
+  have hfr : ∀ (q : WProxy) (a b : Nat), (q.irrelevantRange a b).firstAvail = q.firstAvail := by
+    intro q a b; unfold WProxy.irrelevantRange; split <;> rfl
+  have hfi : ∀ (q : WProxy) (a : Nat), (q.irrelevant cfg a).firstAvail = q.firstAvail := by
+    intro q a
+    unfold WProxy.irrelevant
+    split
+    · exact hfr q a a
+    · split <;> rfl
+  have hfa : ∀ (l : List Nat) (q : WProxy), (l.foldl (WProxy.irrelevant cfg) q).firstAvail = q.firstAvail := by
+    intro l
+    induction l with
+    | nil => intro q; rfl
+    | cons x xs ih => intro q; simp only [List.foldl_cons]; rw [ih, hfi]
+  generalize hq : (set.foldl (WProxy.irrelevant cfg)
+      (if cfg.fixD2 = true then (if base > start then p.irrelevantRange start (base - 1) else p)
+       else (if base > start then (rangeIncl start (base - 1)).foldl (WProxy.irrelevant cfg) p else p))) = q
+  have hle : ProxyLe p q := by
+    rw [← hq]
+    refine ProxyLe.trans ?_ (foldl_irrelevant_le cfg set _)
+    split
+    · split
+      · exact irrelevantRange_le p _ _
+      · exact ProxyLe.refl p
+    · split
+      · exact foldl_irrelevant_le cfg _ p
+      · exact ProxyLe.refl p
+  have hfq : q.firstAvail = p.firstAvail := by
+    rw [← hq, hfa]
+    split
+    · split
+      · exact hfr p _ _
+      · rfl
+    · split
+      · exact hfa _ p
+      · rfl
+  have hres : r.onGap cfg start base set = { r with proxy := some q } := by
+    unfold Reader.onGap
+    rw [hp]
+    simp only
+    rw [hq]
+  rw [hres]
+  refine ⟨rfl, q, rfl, hle.2, ?_⟩
+  unfold WProxy.availMax
+  rw [hfq]
+  have := hle.2
+  omega
+
 /-- as-is (D43): a re-announcement of the match replaces both proxies by fresh ones — the writer sends its history
     again and the reader accepts it again: sample 1 is delivered twice with no fault at all -/
 theorem C02_rematch_duplicates_asis_counterexample :
